@@ -233,11 +233,7 @@ impl GraphInline {
                     format!(
                         "[{}]({})",
                         text,
-                        link_destination(&format!(
-                            "{}{}",
-                            url.strip_suffix(".md").unwrap_or(url),
-                            options.refs_extension
-                        ))
+                        link_destination(&with_refs_extension(url, &options.refs_extension))
                     )
                 } else {
                     format!("[{}]({})", text, link_destination(url))
@@ -439,6 +435,19 @@ impl GraphInline {
             _ => None,
         }
     }
+}
+
+// the configured extension goes on references to notes; an anchor, a query or the name of a
+// file of another type ("files/paper.pdf") is left as written
+fn with_refs_extension(url: &str, extension: &str) -> String {
+    if let Some(name) = url.strip_suffix(".md") {
+        return format!("{}{}", name, extension);
+    }
+    let file_name = url.rsplit('/').next().unwrap_or(url);
+    if url.is_empty() || url.contains('#') || url.contains('?') || file_name.contains('.') {
+        return url.to_string();
+    }
+    format!("{}{}", url, extension)
 }
 
 // a destination that holds a space is only a destination between angle brackets
